@@ -90,6 +90,10 @@ type Tuple []Value
 
 type MapObj struct {
 	keys, vals []Value
+	// lazily populated map (rt.LazyMap): presence and value of a universe key are decided when first looked up
+	lazyGen  *Closure
+	universe []Value
+	asked    []bool
 }
 
 type MapIter struct {
